@@ -67,18 +67,21 @@ def l2Copy (s : St) : Step :=
     { l with compressedSize := l.compressedSize - (dictWrite s s.l2.compressedSize).1 }
   if s1.l2.compressedSize != 0 then .done (.ok, s1) else .next (setL2 s1 fun l => { l with seq := .control })
 
+/-- SEQ_CONTROL after the control byte has been consumed and classified -/
+def l2Control (s : St) (a : ControlAction) : Step :=
+  if a.isEnd then .done (.streamEnd, s)
+  else if a.isError then .done (.dataError, s)
+  else
+    let s := controlApply s a
+    if a.dictReset then .done (.ok, { s with dp := { s.dp with needReset := true } })
+    else .next s
+
 /-- the states that consume exactly one header byte (`byte`); SEQ_LZMA/SEQ_COPY are not handled here -/
 def l2Byte (q : L2Seq) (s : St) (byte : Nat) : Step :=
   match q with
   | .control =>
     let s := { s with inPos := s.inPos + 1 }
-    let a := controlStep byte s.l2.needProperties s.l2.needDictionaryReset
-    if a.isEnd then .done (.streamEnd, s)
-    else if a.isError then .done (.dataError, s)
-    else
-      let s := controlApply s a
-      if a.dictReset then .done (.ok, { s with dp := { s.dp with needReset := true } })
-      else .next s
+    l2Control s (controlStep byte s.l2.needProperties s.l2.needDictionaryReset)
   | .uncompressed1 =>
     .next (setL2 { s with inPos := s.inPos + 1 } fun l =>
       { l with uncompressedSize := l.uncompressedSize + (byte <<< 8), seq := .uncompressed2 })
@@ -127,7 +130,7 @@ theorem lzma2Loop_succ (f : Nat) (s : St) : lzma2Loop (f + 1) s = runStep (lzma2
     generalize (if hlt : s.inPos < s.inp.size then s.inp[s.inPos] else 0).toNat = byte
     cases hq : s.l2.seq with
     | control =>
-      simp only [l2Byte]
+      simp only [l2Byte, l2Control]
       split
       · rfl
       · split
@@ -139,12 +142,218 @@ theorem lzma2Loop_succ (f : Nat) (s : St) : lzma2Loop (f + 1) s = runStep (lzma2
     | compressed1 => rfl
     | properties =>
       simp only [l2Byte]
-      split <;> rfl
+      cases propsDecode byte <;> rfl
     | lzma =>
       simp only [l2Lzma, runStep_ite]
       rfl
     | copy =>
       simp only [l2Copy, runStep_ite]
       rfl
+
+/-! ### the cursor never moves backwards -/
+
+theorem controlApply_inPos (s : St) (a : ControlAction) : (controlApply s a).inPos = s.inPos := by
+  unfold controlApply
+  simp only []
+  split
+  · split <;> rfl
+  · rfl
+
+theorem controlApply_withInp (s : St) (a : ControlAction) (b : ByteArray) :
+    controlApply (St.withInp s b) a = St.withInp (controlApply s a) b := by
+  unfold controlApply
+  simp only []
+  split
+  · split <;> rfl
+  · rfl
+
+theorem l2Control_pos (s : St) (a : ControlAction) : (l2Control s a).pos = s.inPos := by
+  unfold l2Control
+  split
+  · rfl
+  · split
+    · rfl
+    · simp only []
+      split
+      · exact controlApply_inPos _ _
+      · exact controlApply_inPos _ _
+
+theorem l2Control_withInp (s : St) (a : ControlAction) (b : ByteArray) :
+    l2Control (St.withInp s b) a = (l2Control s a).mapInp b := by
+  unfold l2Control
+  split
+  · rfl
+  · split
+    · rfl
+    · simp only []
+      rw [controlApply_withInp]
+      split <;> rfl
+
+theorem l2Byte_pos (q : L2Seq) (s : St) (byte : Nat) : (l2Byte q s byte).pos = s.inPos + 1 := by
+  cases q with
+  | control => exact l2Control_pos _ _
+  | properties =>
+    simp only [l2Byte]
+    cases propsDecode byte <;> rfl
+  | uncompressed1 => rfl
+  | uncompressed2 => rfl
+  | compressed0 => rfl
+  | compressed1 => rfl
+  | lzma => rfl
+  | copy => rfl
+
+theorem l2Byte_withInp (q : L2Seq) (s : St) (byte : Nat) (b : ByteArray) :
+    l2Byte q (St.withInp s b) byte = (l2Byte q s byte).mapInp b := by
+  cases q with
+  | control =>
+    exact l2Control_withInp { s with inPos := s.inPos + 1 } (controlStep byte s.l2.needProperties s.l2.needDictionaryReset) b
+  | properties =>
+    simp only [l2Byte]
+    cases propsDecode byte <;> rfl
+  | uncompressed1 => rfl
+  | uncompressed2 => rfl
+  | compressed0 => rfl
+  | compressed1 => rfl
+  | lzma => rfl
+  | copy => rfl
+
+theorem l2Lzma_pos (i : Nat) (r : Ret × St) : (l2Lzma i r).pos = r.2.inPos := by
+  unfold l2Lzma
+  simp only []
+  split
+  · rfl
+  · split
+    · rfl
+    · split <;> rfl
+
+theorem l2Lzma_withInp (i : Nat) (ret : Ret) (w : St) (c : ByteArray) :
+    l2Lzma i (ret, St.withInp w c) = (l2Lzma i (ret, w)).mapInp c := by
+  unfold l2Lzma
+  show (if w.inPos - i > w.l2.compressedSize then _ else _) = Step.mapInp c (if w.inPos - i > w.l2.compressedSize then _ else _)
+  split
+  · rfl
+  · simp only []
+    split
+    · rfl
+    · show (if (w.l2.compressedSize - (w.inPos - i) != 0) = true then _ else _) =
+        Step.mapInp c (if (w.l2.compressedSize - (w.inPos - i) != 0) = true then _ else _)
+      split <;> rfl
+
+/-- number of bytes SEQ_COPY copies -/
+def copyCount (s : St) : Nat := min (min (s.inp.size - s.inPos) s.l2.compressedSize) s.dp.avail
+
+theorem l2Copy_facts (s : St) (hq : s.l2.seq = .copy) :
+    (l2Copy s).pos = s.inPos + copyCount s ∧
+    match l2Copy s with
+    | .done r => r.1 = .ok ∧ r.2.l2.seq = .copy
+    | .next s1 => s1.l2.seq = .control := by
+  unfold l2Copy
+  simp only []
+  split
+  · exact ⟨rfl, rfl, hq⟩
+  · exact ⟨rfl, rfl⟩
+
+theorem l2Step_lzma (s : St) (hq : s.l2.seq = .lzma) : l2Step s = l2Lzma s.inPos (lzmaCall s) := by
+  unfold l2Step
+  simp [hq]
+
+theorem l2Step_starve (s : St) (hq : s.l2.seq ≠ .lzma) (hg : ¬ s.inPos < s.inp.size) : l2Step s = .done (.ok, s) := by
+  unfold l2Step
+  rw [if_pos]
+  simp [hg, hq]
+
+theorem l2Step_copy (s : St) (hq : s.l2.seq = .copy) (hg : s.inPos < s.inp.size) : l2Step s = l2Copy s := by
+  unfold l2Step
+  simp [hq, hg]
+
+theorem l2Step_byte (s : St) (hq : s.l2.seq ≠ .lzma) (hq' : s.l2.seq ≠ .copy) (hg : s.inPos < s.inp.size) :
+    l2Step s = l2Byte s.l2.seq s (curByte s) := by
+  unfold l2Step
+  rw [if_neg (by simp [hg])]
+  cases h : s.l2.seq with
+  | lzma => exact absurd h hq
+  | copy => exact absurd h hq'
+  | _ => rfl
+
+theorem l2Step_mono (s : St) : s.inPos ≤ (l2Step s).pos := by
+  by_cases hq : s.l2.seq = .lzma
+  · rw [l2Step_lzma s hq, l2Lzma_pos]; exact lzmaCall_mono s
+  · by_cases hg : s.inPos < s.inp.size
+    · by_cases hc : s.l2.seq = .copy
+      · rw [l2Step_copy s hc hg, (l2Copy_facts s hc).1]; omega
+      · rw [l2Step_byte s hq hc hg, l2Byte_pos]; omega
+    · rw [l2Step_starve s hq hg]; exact Nat.le_refl _
+
+theorem lzma2Loop_mono : ∀ f s, s.inPos ≤ (lzma2Loop f s).2.inPos
+  | 0, s => by unfold lzma2Loop; exact Nat.le_refl _
+  | f + 1, s => by
+    rw [lzma2Loop_succ]
+    have hm := l2Step_mono s
+    cases h : l2Step s with
+    | done r => rw [h] at hm; exact hm
+    | next s1 => rw [h] at hm; exact Nat.le_trans hm (lzma2Loop_mono f s1)
+
+/-! ### diverged states -/
+
+/-- at or beyond the common prefix, with the LZMA layer (if active) starved -/
+def K2 (n : Nat) (s : St) : Prop := n ≤ s.inPos ∧ (s.l2.seq = .lzma → s.pending = .stuck)
+
+theorem SDiv.of_pos {n : Nat} {K : St → Prop} {st : Step} (h : n < st.pos) : SDiv n K st := by
+  cases st with
+  | done r => exact Or.inl h
+  | next s => exact Or.inl h
+
+theorem k2_copy (n : Nat) (s : St) (hq : s.l2.seq = .copy) (hp : n ≤ s.inPos + copyCount s) : SDiv n (K2 n) (l2Copy s) := by
+  have hf := l2Copy_facts s hq
+  cases h : l2Copy s with
+  | done r =>
+    rw [h] at hf
+    have h1 : r.2.inPos = s.inPos + copyCount s := hf.1
+    right
+    refine ⟨by rw [hf.2.1]; simp, fun _ => ⟨by omega, fun hl => ?_⟩⟩
+    rw [hf.2.2] at hl; cases hl
+  | next s1 =>
+    rw [h] at hf
+    have h1 : s1.inPos = s.inPos + copyCount s := hf.1
+    right
+    refine ⟨by omega, fun hl => ?_⟩
+    rw [hf.2] at hl; cases hl
+
+theorem k2_step (n : Nat) (s : St) (h : K2 n s) : SDiv n (K2 n) (l2Step s) := by
+  by_cases hq : s.l2.seq = .lzma
+  · rw [l2Step_lzma s hq, lzmaCall_stuck s (h.2 hq)]
+    unfold l2Lzma
+    simp only [Nat.sub_self]
+    rw [if_neg (by omega)]
+    rw [if_pos (by decide)]
+    right
+    exact ⟨by simp, fun _ => ⟨h.1, fun _ => h.2 hq⟩⟩
+  · by_cases hg : s.inPos < s.inp.size
+    · by_cases hc : s.l2.seq = .copy
+      · rw [l2Step_copy s hc hg]
+        exact k2_copy n s hc (by have := h.1; omega)
+      · rw [l2Step_byte s hq hc hg]
+        apply SDiv.of_pos
+        rw [l2Byte_pos]
+        have := h.1
+        omega
+    · rw [l2Step_starve s hq hg]
+      right
+      exact ⟨by simp, fun _ => h⟩
+
+theorem k2_loop (n : Nat) : ∀ f s, (n < s.inPos ∨ K2 n s) → Div2 n (K2 n) (lzma2Loop f s)
+  | 0, s, h => by
+    unfold lzma2Loop
+    rcases h with h | h
+    · exact Or.inl h
+    · exact Or.inr ⟨by simp, fun hc => by cases hc⟩
+  | f + 1, s, h => by
+    rcases h with h | h
+    · exact Or.inl (Nat.lt_of_lt_of_le h (lzma2Loop_mono _ s))
+    · rw [lzma2Loop_succ]
+      have hs := k2_step n s h
+      cases hst : l2Step s with
+      | done r => rw [hst] at hs; exact hs
+      | next s1 => rw [hst] at hs; exact k2_loop n f s1 hs
 
 end XzVerif.Lzma2
